@@ -221,11 +221,13 @@ func (e *emitter) add(cs *Case, steps []*stepRec, obs *Obs) {
 
 // execute runs a case in its mode and emits it.
 func (e *emitter) execute(cs *Case, decide func(ready []string, k int) int) *runS {
-	// a hang (5 s without quiescence) is re-executed once before it is reported: on a machine
-	// shared with other checks a goroutine can be starved that long
+	// A case counts as observed only on positive evidence that it ran to its end (runs.go:
+	// incomplete, waitQuiet).  If that evidence is not there within the (generous) bounds the
+	// case is RE-RUN, up to two more times, and only a hang that reproduces every time is
+	// emitted -- as a hang (K_P tag 5 alone): a half-observed run is never judged.
 	if cs.Mode == "A" {
 		obs := runFree(cs)
-		if obs.Bad != "" {
+		for try := 0; try < 2 && obs.Bad != ""; try++ {
 			e.meta.Hist("retried")
 			obs = runFree(cs)
 		}
@@ -233,7 +235,7 @@ func (e *emitter) execute(cs *Case, decide func(ready []string, k int) int) *run
 		return nil
 	}
 	r, obs := runSched(cs, decide)
-	if obs.Bad != "" {
+	for try := 0; try < 2 && obs.Bad != ""; try++ {
 		e.meta.Hist("retried")
 		prefix := forced(r.sched)
 		n := len(r.sched)
